@@ -63,6 +63,8 @@ def cases(ctx):
         m = models.gen_model(rng, n_ops=rng.randint(1, 6), sinks=rng.random() < 0.6, table=models.gen_table(rng, nrows=nrows, exotic_names=False), cmds=safe_)
         if nrows >= 2 and i % 2:
             m["table"]["blank_before"] = sorted(set([1, nrows // 2, nrows - 1]))      # empty lines between the records
+        if nrows >= 2 and i % 4 == 1:
+            m["table"]["notes"] = ["plain", "two\nlines", "three\nphysical\nlines", "a, comma"]      # quoted fields of another column holding line breaks
         if nrows >= 2 and i % 3 == 0:
             # whole decimals written without a decimal point in the first row only, fractions in other rows
             m["table"]["bare_whole"] = [0]
@@ -245,6 +247,10 @@ def run_model(ctx, case):
     for shape in (case["shape_a"], case["shape_b"]):
         m = copy.deepcopy(model)
         m["table"]["shape"] = list(shape)
+        m["table"].pop("dimnames", None)
+        if len(shape) >= 2 and len(model["commands"]) % 2 == 0:
+            # axes carrying geographic-looking names in either order: the order of the axes is the stored one
+            m["table"]["dimnames"] = ["time", "band"][:len(shape) - 2] + [["lon", "lat"], ["x", "y"], ["lat", "lon"], ["col", "row"]][len(model["commands"]) // 2 % 4]
         d = ctx.scratch()
         dirs.append(d)
         try:
